@@ -133,7 +133,7 @@ func corruptFile(path string, kind string) {
 	var c map[string]json.RawMessage
 	_ = json.Unmarshal(b, &c)
 	write := func(x []byte) { must(os.WriteFile(path, x, 0600)) }
-	if len(b) == 0 && kind != "foreignJSON" && kind != "baseNotDER" && kind != "deltaNotDER" {
+	if len(b) == 0 && kind != "foreignJSON" && kind != "baseNotDER" && kind != "deltaNotDER" && kind != "deltaEmpty" {
 		// already an empty (broken) file: it stays broken whatever else is done to it
 		write([]byte("\x00"))
 		return
@@ -175,6 +175,14 @@ func corruptFile(path string, kind string) {
 			c = map[string]json.RawMessage{}
 		}
 		c["deltaCRL"] = nb
+		out, _ := json.Marshal(c)
+		write(out)
+	case "deltaEmpty":
+		// the delta field present but cut to zero bytes: not a CRL
+		if c == nil {
+			c = map[string]json.RawMessage{}
+		}
+		c["deltaCRL"] = json.RawMessage(`""`)
 		out, _ := json.Marshal(c)
 		write(out)
 	case "swapped":
